@@ -868,12 +868,17 @@ class LTLayoutContainer(LTContainer[LTComponent]):
             objs = set(plane.find((x0, y0, x1, y1)))
             return objs.difference((obj1, obj2))
 
+        # Objects are numbered in creation order; the numbers break ties in the
+        # heap deterministically (id() values differ from run to run).
+        order: Dict[ElementT, int] = {box: n for n, box in enumerate(boxes)}
         dists: List[Tuple[bool, float, int, int, ElementT, ElementT]] = []
         for i in range(len(boxes)):
             box1 = boxes[i]
             for j in range(i + 1, len(boxes)):
                 box2 = boxes[j]
-                dists.append((False, dist(box1, box2), id(box1), id(box2), box1, box2))
+                dists.append(
+                    (False, dist(box1, box2), order[box1], order[box2], box1, box2)
+                )
         heapq.heapify(dists)
 
         plane.extend(boxes)
@@ -896,10 +901,18 @@ class LTLayoutContainer(LTContainer[LTComponent]):
                 plane.remove(obj2)
                 done.update([id1, id2])
 
+                order[group] = len(order)
                 for other in plane:
                     heapq.heappush(
                         dists,
-                        (False, dist(group, other), id(group), id(other), group, other),
+                        (
+                            False,
+                            dist(group, other),
+                            order[group],
+                            order[other],
+                            group,
+                            other,
+                        ),
                     )
                 plane.add(group)
         # By now only groups are in the plane
